@@ -161,13 +161,13 @@ fn invocation(c: &MacroCase) -> String {
     for (i, (k, v, has_list, edges)) in c.nodes.iter().enumerate() {
         let head = match c.form {
             Form::K | Form::KE => format!("({})", key_lit(c, *k)),
-            _ => format!("({}, {})", key_lit(c, *k), if v % 3 == 0 { format!("val({})", v) } else { format!("{}", v) }),
+            _ => format!("({}, {})", key_lit(c, *k), if v % 3 == 0 { format!("val({})", v) } else if v.rem_euclid(6) == 1 { format!("cell.borrow_mut().take({})", v) } else { format!("{}", v) }),
         };
         let mut es: Vec<String> = edges
             .iter()
             .map(|(t, ev, call)| match c.form {
                 Form::K | Form::KN => key_lit(c, *t),
-                _ => format!("({}, {})", key_lit(c, *t), if *call { format!("val({})", ev) } else { format!("{}", ev) }),
+                _ => format!("({}, {})", key_lit(c, *t), if *call && ev % 2 == 1 { format!("cell.borrow_mut().take({})", ev) } else if *call { format!("val({})", ev) } else { format!("{}", ev) }),
             })
             .collect();
         let mut listed = *has_list;
@@ -188,6 +188,20 @@ fn invocation(c: &MacroCase) -> String {
     }
     s.push_str("    ]");
     s
+}
+
+/// how many value expressions of the invocation go through the RefCell guard (`cell.borrow_mut().take(x)`)
+fn guarded_exprs(c: &MacroCase) -> usize {
+    let mut n = 0;
+    for (_, v, _, edges) in &c.nodes {
+        if matches!(c.form, Form::KN | Form::KNE) && v % 3 != 0 && v.rem_euclid(6) == 1 {
+            n += 1;
+        }
+        if matches!(c.form, Form::KE | Form::KNE) {
+            n += edges.iter().filter(|(_, ev, call)| *call && ev % 2 == 1).count();
+        }
+    }
+    n
 }
 
 /// expected dump: per node sorted by key `key:value:[peer/evalue,...]`
@@ -233,7 +247,7 @@ fn denotation(c: &MacroCase) -> (String, BTreeMap<String, Vec<(String, String)>>
 
 fn c14_program(cases: &[MacroCase]) -> String {
     let mut s = String::from(
-        "#![allow(unused, clippy::all)]\nuse gdsl::*;\nuse std::fmt::Debug;\nfn val(x: i64) -> i64 { x }\n\
+        "#![allow(unused, clippy::all)]\nuse gdsl::*;\nuse std::fmt::Debug;\nfn val(x: i64) -> i64 { x }\nstruct Ctr(usize);\nimpl Ctr { fn take(&mut self, x: i64) -> i64 { self.0 += 1; x } }\n\
 fn show<T: Debug>(t: &T) -> String { format!(\"{:?}\", t) }\n\
 macro_rules! dump_directed { ($g:expr) => {{ let g = &$g; let mut ks: Vec<_> = g.iter().map(|(k, _)| k.clone()).collect(); ks.sort(); let mut s = String::new(); for k in ks { let n = g.get(&k).unwrap(); let es: Vec<String> = n.iter_out().map(|e| format!(\"{}/{}\", e.1.key(), show(&e.2))).collect(); let ins = n.iter_in().count(); s.push_str(&format!(\"{}:{}:[{}];\", k, show(n.value()), es.join(\",\"))); let _ = ins; } s }} }\n\
 macro_rules! dump_undirected { ($g:expr) => {{ let g = &$g; let mut ks: Vec<_> = g.iter().map(|(k, _)| k.clone()).collect(); ks.sort(); let mut s = String::new(); let mut raw = String::new(); for k in ks { let n = g.get(&k).unwrap(); let mut es: Vec<String> = n.iter().map(|e| format!(\"{}/{}\", e.1.key(), show(&e.2))).collect(); raw.push_str(&format!(\"{}=>{}|\", k, es.join(\",\"))); es.sort(); s.push_str(&format!(\"{}:{}:[{}];\", k, show(n.value()), es.join(\",\"))); } format!(\"{} RAW {}\", s, raw) }} }\n",
@@ -249,9 +263,9 @@ macro_rules! dump_undirected { ($g:expr) => {{ let g = &$g; let mut ks: Vec<_> =
         };
         let dump = if c.flavour < 2 { "dump_directed" } else { "dump_undirected" };
         if c.bad_edge.is_some() {
-            let _ = writeln!(s, "fn case_{i}() {{\n    let r = std::panic::catch_unwind(|| {{\n        let g: gdsl::{m}::Graph<{kt}, {nt}, {et}> = {inv};\n        {dump}!(g)\n    }});\n    match r {{ Ok(d) => println!(\"CASE {i} RETURNED {{}}\", d), Err(e) => println!(\"CASE {i} PANIC {{}}\", e.downcast_ref::<String>().cloned().or_else(|| e.downcast_ref::<&str>().map(|s| s.to_string())).unwrap_or_default()) }}\n}}", i = i, m = m, kt = kt, nt = nt, et = et, inv = invocation(c), dump = dump);
+            let _ = writeln!(s, "fn case_{i}() {{\n    let r = std::panic::catch_unwind(|| {{\n        let cell = std::cell::RefCell::new(Ctr(0));\n        let g: gdsl::{m}::Graph<{kt}, {nt}, {et}> = {inv};\n        {dump}!(g)\n    }});\n    match r {{ Ok(d) => println!(\"CASE {i} RETURNED {{}}\", d), Err(e) => println!(\"CASE {i} PANIC {{}}\", e.downcast_ref::<String>().cloned().or_else(|| e.downcast_ref::<&str>().map(|s| s.to_string())).unwrap_or_default()) }}\n}}", i = i, m = m, kt = kt, nt = nt, et = et, inv = invocation(c), dump = dump);
         } else {
-            let _ = writeln!(s, "fn case_{i}() {{\n    let g: gdsl::{m}::Graph<{kt}, {nt}, {et}> = {inv};\n    println!(\"CASE {i} OK {{}}\", {dump}!(g));\n}}", i = i, m = m, kt = kt, nt = nt, et = et, inv = invocation(c), dump = dump);
+            let _ = writeln!(s, "fn case_{i}() {{\n    let r = std::panic::catch_unwind(|| {{\n        let cell = std::cell::RefCell::new(Ctr(0));\n        let g: gdsl::{m}::Graph<{kt}, {nt}, {et}> = {inv};\n        let evals = cell.borrow().0;\n        format!(\"{{}} EVALS {{}}\", {dump}!(g), evals)\n    }});\n    match r {{ Ok(d) => println!(\"CASE {i} OK {{}}\", d), Err(e) => println!(\"CASE {i} PANIC {{}}\", e.downcast_ref::<String>().cloned().or_else(|| e.downcast_ref::<&str>().map(|s| s.to_string())).unwrap_or_default()) }}\n}}", i = i, m = m, kt = kt, nt = nt, et = et, inv = invocation(c), dump = dump);
         }
     }
     // helpers: *_node! both arities, *_connect! both arities, the empty form
@@ -293,6 +307,13 @@ fn c14_judge(c: &MacroCase, line: Option<&str>) -> Result<(), (&'static str, Str
         }
     } else if let Some(d) = line.strip_prefix("OK ") {
         let directed = c.flavour < 2;
+        let (d, evals) = match d.rsplit_once(" EVALS ") {
+            Some((a, b)) => (a, b.trim().parse::<usize>().ok()),
+            None => (d, None),
+        };
+        if evals != Some(guarded_exprs(c)) {
+            return Err(("macro.value-expression-not-evaluated-exactly-once", format!("{} value expressions go through the counting guard, {:?} evaluations were counted", guarded_exprs(c), evals)));
+        }
         let (canon, raw) = match d.split_once(" RAW ") {
             Some((a, b)) => (a, Some(b)),
             None => (d, None),
@@ -324,7 +345,7 @@ fn c14_judge(c: &MacroCase, line: Option<&str>) -> Result<(), (&'static str, Str
 }
 
 pub fn run_c14(ctx: &mut Ctx) {
-    ctx.rule = "cases = macro invocations as program text: digraph!/ungraph!/sync_digraph!/sync_ungraph! x the four signature forms (K), (K,N), (K)=>[E], (K,N)=>[E] x key type u32/&str, 0-6 nodes with non-contiguous keys listed in rotated order (forward references), edge lists present / empty / omitted, self-loops, repeated edges, values given as literals or calls; 15% ill-formed (one edge to an unlisted key); plus per flavour the empty form and both arities of *_node! and *_connect!. Drawn from proptest strategies with the run's seed, emitted into one program per batch, compiled against /repo's working tree with the result type ascribed (gdsl::<flavour>::Graph<K,N,E>), run, and the dump (nodes, values, each node's edges in iteration order) compared with the denotation: directed out-lists exactly, undirected incidence multisets plus listed order of the node's own edges; ill-formed => panic naming the key. Non-trivial = invocation with a forward reference, a repeated edge or a self-loop; distinct = hash of the invocation.".into();
+    ctx.rule = "cases = macro invocations as program text: digraph!/ungraph!/sync_digraph!/sync_ungraph! x the four signature forms (K), (K,N), (K)=>[E], (K,N)=>[E] x key type u32/&str, 0-6 nodes with non-contiguous keys listed in rotated order (forward references), edge lists present / empty / omitted, self-loops, repeated edges, values given as literals, calls, or calls through a guard temporary (`cell.borrow_mut().take(v)`, counted: each value expression is evaluated exactly once and its temporaries do not outlive it); 15% ill-formed (one edge to an unlisted key); plus per flavour the empty form and both arities of *_node! and *_connect!. Drawn from proptest strategies with the run's seed, emitted into one program per batch, compiled against /repo's working tree with the result type ascribed (gdsl::<flavour>::Graph<K,N,E>), run, and the dump (nodes, values, each node's edges in iteration order) compared with the denotation: directed out-lists exactly, undirected incidence multisets plus listed order of the node's own edges; ill-formed => panic naming the key. Non-trivial = invocation with a forward reference, a repeated edge or a self-loop; distinct = hash of the invocation.".into();
     ctx.assumptions = vec!["no shrinking for program cases (every shrink step costs a compilation); invocations are small by construction".into(), "repeated node keys are not generated (the statement does not define them)".into()];
     let tier = ctx.tier;
     let batches = tier.pick(1usize, 8usize);
@@ -838,6 +859,8 @@ pub enum PSt {
     Iso(usize),
     Look(usize, usize),
     Lists,
+    /// compare two nodes directly: cmp, partial_cmp, <, <=, >, >=, ==, !=
+    Cmp(usize, usize),
     /// root, algo 0..4, term 0..3, target (-1 none), transposed, meth 0..3
     Search(usize, u8, u8, i64, bool, u8),
     /// root, pre?, transposed, edges?, meth
@@ -872,7 +895,10 @@ fn pscript_strategy(prop: &'static str) -> impl Strategy<Value = PScript> {
             "C03" => prop_oneof![2 => Just(PSt::Lists), 2 => (node(), node()).prop_map(|(u, v)| PSt::Look(u, v))].boxed(),
             "C04" => (node(), 0u8..1, 0u8..2, -1i64..7, any::<bool>(), 0u8..3).prop_map(|(r, a, t, tg, tr, m)| PSt::Search(r, a, t, tg, tr, m)).boxed(),
             "C05" => (node(), 1u8..2, 0u8..2, -1i64..7, any::<bool>(), 0u8..3).prop_map(|(r, a, t, tg, tr, m)| PSt::Search(r, a, t, tg, tr, m)).boxed(),
-            "C06" => (node(), 2u8..4, 0u8..2, -1i64..7, any::<bool>(), 0u8..3).prop_map(|(r, a, t, tg, tr, m)| PSt::Search(r, a, t, tg, tr, m)).boxed(),
+            "C06" => prop_oneof![
+                4 => (node(), 2u8..4, 0u8..2, -1i64..7, any::<bool>(), 0u8..3).prop_map(|(r, a, t, tg, tr, m)| PSt::Search(r, a, t, tg, tr, m)),
+                1 => (node(), node()).prop_map(|(a, b)| PSt::Cmp(a, b)),
+            ].boxed(),
             "C09" => (node(), 0u8..4, 2u8..3, -1i64..0, any::<bool>(), 0u8..3).prop_map(|(r, a, t, tg, tr, m)| PSt::Search(r, a, t, tg, tr, m)).boxed(),
             "C10" => (node(), any::<bool>(), any::<bool>(), any::<bool>(), 0u8..3).prop_map(|(r, p, tr, e, m)| PSt::Order(r, p, tr, e, m)).boxed(),
             "C11" => prop_oneof![3 => node().prop_map(PSt::GIns), 1 => Just(PSt::Scc)].boxed(),
@@ -905,7 +931,7 @@ use std::collections::HashMap;
 use std::fmt::{Debug, Display};
 use std::hash::Hash;
 #[derive(Clone, Copy, Debug)]
-enum St { Deser(&'static [usize], &'static [(usize, usize, usize)]), Con(usize, usize, usize), Try(usize, usize, usize), Dis(usize, usize), Iso(usize), Look(usize, usize), Lists, Search(usize, u8, u8, i64, bool, u8), Order(usize, bool, bool, bool, u8), GIns(usize), GRem(usize), GViews, Scc, Serde }
+enum St { Cmp(usize, usize), Deser(&'static [usize], &'static [(usize, usize, usize)]), Con(usize, usize, usize), Try(usize, usize, usize), Dis(usize, usize), Iso(usize), Look(usize, usize), Lists, Search(usize, u8, u8, i64, bool, u8), Order(usize, bool, bool, bool, u8), GIns(usize), GRem(usize), GViews, Scc, Serde }
 fn reject(s: usize, t: usize) -> bool { (s + 2 * t) % 3 == 0 }
 /// a legal but awkward key type: Hash is much coarser than Eq (every second key collides) and Display is not injective
 #[derive(Clone, Copy, Debug, PartialEq, Eq, PartialOrd, Ord, serde::Serialize, serde::Deserialize)]
@@ -913,6 +939,13 @@ fn reject(s: usize, t: usize) -> bool { (s + 2 * t) % 3 == 0 }
 pub struct WKey(pub u16);
 impl Hash for WKey { fn hash<H: std::hash::Hasher>(&self, h: &mut H) { (self.0 % 2).hash(h) } }
 impl Display for WKey { fn fmt(&self, f: &mut std::fmt::Formatter) -> std::fmt::Result { write!(f, "w{}", self.0 / 2) } }
+
+/// a node value type whose PartialOrd (IEEE: -0.0 == 0.0) is coarser than its Ord (total order: -0.0 < 0.0), as f64 wrappers usually are
+#[derive(Clone, Copy, Debug, PartialEq, PartialOrd, serde::Serialize, serde::Deserialize)]
+pub struct Score(pub f64);
+impl Eq for Score {}
+impl Ord for Score { fn cmp(&self, o: &Score) -> std::cmp::Ordering { self.0.total_cmp(&o.0) } }
+fn score(p: i64) -> Score { Score(match p { 0 => -0.0, 1 => 0.0, p => (p - 1) as f64 }) }
 
 macro_rules! body {
     ($m:ident, $directed:tt) => {
@@ -937,6 +970,10 @@ macro_rules! body {
                         St::Dis(u, v) => format!("dis {} {} -> {:?}", u, v, nodes[u].disconnect(&mk(v)).map(|e| ek(&e)).map_err(|_| ())),
                         St::Iso(u) => { nodes[u].isolate(); format!("iso {}", u) }
                         St::Look(u, v) => body!(@look $directed, nodes, u, v, mk, ix),
+                        St::Cmp(a, b) => {
+                            let (x, y) = (&nodes[a], &nodes[b]);
+                            format!("cmp {} {} -> {:?} {:?} {} {} {} {} {} {}", a, b, x.cmp(y), x.partial_cmp(y), x < y, x <= y, x > y, x >= y, x == y, x != y)
+                        }
                         St::Lists => {
                             let mut s = String::from("lists");
                             for (i, nd) in nodes.iter().enumerate() { s.push_str(&format!(" {}:{}", i, body!(@lists $directed, nd, tri))); }
@@ -1046,7 +1083,9 @@ macro_rules! variants { ($m:ident, $name:expr, $si:expr, $n:expr, $prio:expr, $s
     let t3 = $m::run::<char, i64, (u8, Vec<u8>)>($n, $prio, $steps, &|i| (b'a' + i as u8) as char, &|p| p, &|e| (e as u8, vec![e as u8; e]), &|e| e.0 as usize);
     // keys whose Hash collides (every second key) and whose Display is not injective
     let t4 = $m::run::<WKey, i64, u32>($n, $prio, $steps, &|i| WKey(i as u16), &|p| p, &|e| e as u32, &|e| *e as usize);
-    for (tag, a, b) in [("String-keys,unit-edges", &t0e, &t1), ("u64::MAX-values,String-node-values", &t0, &t2), ("char-keys,tuple-edges", &t0, &t3), ("keys-with-colliding-Hash-and-Display", &t0, &t4)] {
+    // node values whose PartialOrd disagrees with their Ord (the library promises to order nodes by Ord)
+    let t5 = $m::run::<u16, Score, u32>($n, $prio, $steps, &|i| i as u16, &|p| score(p), &|e| e as u32, &|e| *e as usize);
+    for (tag, a, b) in [("String-keys,unit-edges", &t0e, &t1), ("u64::MAX-values,String-node-values", &t0, &t2), ("char-keys,tuple-edges", &t0, &t3), ("keys-with-colliding-Hash-and-Display", &t0, &t4), ("node-values-with-PartialOrd-coarser-than-Ord", &t0, &t5)] {
         if a != b {
             let i = a.iter().zip(b.iter()).position(|(x, y)| x != y).unwrap_or(a.len().min(b.len()));
             println!("DIFF {} {} {} step {} :: baseline `{}` :: variant `{}`", $si, $name, tag, i, a.get(i).map(|s| s.as_str()).unwrap_or("<none>"), b.get(i).map(|s| s.as_str()).unwrap_or("<none>"));
@@ -1079,6 +1118,7 @@ fn parse(path: &str) -> Vec<(usize, Vec<i64>, Vec<St>)> {
             "Iso" => cur.as_mut().unwrap().2.push(St::Iso(u(1))),
             "Look" => cur.as_mut().unwrap().2.push(St::Look(u(1), u(2))),
             "Lists" => cur.as_mut().unwrap().2.push(St::Lists),
+            "Cmp" => cur.as_mut().unwrap().2.push(St::Cmp(f[1].parse().unwrap(), f[2].parse().unwrap())),
             "Search" => cur.as_mut().unwrap().2.push(St::Search(u(1), u(2) as u8, u(3) as u8, f[4].parse().unwrap(), b(5), u(6) as u8)),
             "Order" => cur.as_mut().unwrap().2.push(St::Order(u(1), b(2), b(3), b(4), u(5) as u8)),
             "GIns" => cur.as_mut().unwrap().2.push(St::GIns(u(1))),
@@ -1121,6 +1161,7 @@ fn pst_line(s: &PSt) -> String {
         PSt::Iso(u) => format!("Iso {}", u),
         PSt::Look(u, v) => format!("Look {} {}", u, v),
         PSt::Lists => "Lists".into(),
+        PSt::Cmp(a, b) => format!("Cmp {} {}", a, b),
         PSt::Search(r, a, t, tg, tr, m) => format!("Search {} {} {} {} {} {}", r, a, t, tg, b(tr), m),
         PSt::Order(r, p, tr, e, m) => format!("Order {} {} {} {} {}", r, b(p), b(tr), b(e), m),
         PSt::GIns(u) => format!("GIns {}", u),
@@ -1197,6 +1238,6 @@ pub fn payload_independence(ctx: &mut Ctx, prop: &'static str) {
     for sc in scripts.iter().take(nscripts) {
         ctx.stats.nontrivial(&("payload", sc));
     }
-    ctx.stats.sample_kind("payload-script", 1, || json!({"payload_script": scripts[0], "run_with": ["(u16,i32,u32) baseline", "(String,i64,())", "(u64 near MAX, String, u64 near MAX)", "(char,i64,(u8,Vec<u8>))", "(WKey: Hash collides for every second key, Display not injective; i64; u32)"], "on": MODS}));
-    ctx.stats.extra.insert("payload_independence".into(), json!({"scripts": nscripts, "variants": 4, "flavours": 4, "identical_traces": same}));
+    ctx.stats.sample_kind("payload-script", 1, || json!({"payload_script": scripts[0], "run_with": ["(u16,i32,u32) baseline", "(String,i64,())", "(u64 near MAX, String, u64 near MAX)", "(char,i64,(u8,Vec<u8>))", "(WKey: Hash collides for every second key, Display not injective; i64; u32)", "(u16; Score(f64) with IEEE PartialOrd but total-order Ord, using -0.0 / 0.0; u32)"], "on": MODS}));
+    ctx.stats.extra.insert("payload_independence".into(), json!({"scripts": nscripts, "variants": 5, "flavours": 4, "identical_traces": same}));
 }
